@@ -56,7 +56,7 @@ def gen(c):
                 exts.append(e + rng.choice(["!", "?"]) if e != "aki" else e)
             if kind == "crl":
                 exts = [e for e in exts if e == "aki"]
-            sid = rng.choice([b"", b"1234567812345678", b"issuer-id-1", rb(30)])
+            sid = [b"", b"1234567812345678", b"issuer-id-1", rb(30), b"ab\x00cd", b"\x00lead", b"trail\x00"][i % 7] if i < 14 else rng.choice([b"", b"1234567812345678", b"issuer-id-1", rb(30), b"ab\x00cd"])
             revoked = rng.sample(serials, rng.randrange(0, 6)) if kind == "crl" else []
             # per entry: reason code (-1 = no CRLReason extension, 0..10 without the unassigned 7) and invalidity date (-1 = absent)
             if kind == "crl" and i < 2:             # every reason code once, alone (i = 0) and next to an invalidity date (i = 1)
@@ -119,6 +119,10 @@ def body():
         v("otherkey", der, "other", sid, False, True, False)
         v("otherid", der, "right", sid + b"x", True, False, False)
         v("otherid2", der, "right", b"1234567812345678" if sid != b"1234567812345678" else b"1234567812345679", True, False, False)
+        # IDs are byte strings, not C strings: the issuing ID continued after a zero octet, or cut at its first zero octet, is another ID
+        v("otherid:zero-suffix", der, "right", sid + b"\x00tail", True, False, False)
+        if b"\x00" in sid and sid.index(b"\x00") > 0:
+            v("otherid:cut-at-zero", der, "right", sid[:sid.index(b"\x00")], True, False, False)
         # an algorithm identifier replaced by another one the library knows (same encoded length): the outer one is not under the signature, the inner one is
         SM2SIGN, ECDSA256 = bytes.fromhex("2a811ccf55018375"), bytes.fromhex("2a8648ce3d040302")
         occ = [i for i in range(len(der) - 8) if der[i:i + 8] == SM2SIGN]
